@@ -312,10 +312,28 @@ func (c *FnCtx) zeroObject(st *State, root types.Type, obj *Term) {
 
 func mapKeySort(m *types.Map) string {
 	ls := leavesOf(m.Key())
+	if _, ok := m.Key().Underlying().(*types.Interface); ok {
+		return SInt // interface keys are folded into one Int by the uninterpreted function ikey
+	}
 	if len(ls) != 1 {
 		panic(unsupported("map key type " + m.Key().String()))
 	}
 	return ls[0].Sort
+}
+
+// mapKey returns the single term used to index the map arrays.
+func (c *FnCtx) mapKey(m *types.Map, key Val) *Term {
+	if _, ok := m.Key().Underlying().(*types.Interface); ok {
+		if len(key.L) != 3 {
+			panic(unsupported("interface map key without interface leaves"))
+		}
+		c.decls.Fun("ikey", []string{SInt, SInt, SInt}, SInt)
+		return App("ikey", SInt, key.L...)
+	}
+	if len(key.L) != 1 {
+		panic(unsupported("map key with several leaves"))
+	}
+	return key.L[0]
 }
 
 func mapFam(m *types.Map, what string) string {
@@ -325,20 +343,18 @@ func mapFam(m *types.Map, what string) string {
 func (c *FnCtx) mapLookup(st *State, mv Val, key Val) (Val, *Term) {
 	m := mv.T.Underlying().(*types.Map)
 	ks := mapKeySort(m)
-	if len(key.L) != 1 {
-		panic(unsupported("map key with several leaves"))
-	}
+	kt := c.mapKey(m, key)
 	hasFam := mapFam(m, "has")
 	_, hasTouched := st.m[hasFam]
 	has := c.get(st, hasFam, ArrS(SInt, ArrS(ks, SBool)))
-	ok := Select(Select(has, mv.L[0]), key.L[0])
+	ok := Select(Select(has, mv.L[0]), kt)
 	ls := leavesOf(m.Elem())
 	out := Val{T: m.Elem(), L: make([]*Term, len(ls))}
 	for i, l := range ls {
 		fam := mapFam(m, fmt.Sprintf("v%d", i))
 		_, touched := st.m[fam]
 		h := c.get(st, fam, ArrS(SInt, ArrS(ks, l.Sort)))
-		out.L[i] = Select(Select(h, mv.L[0]), key.L[0])
+		out.L[i] = Select(Select(h, mv.L[0]), kt)
 		if !touched && !hasTouched {
 			c.mapAxiom(has, h, ks, zeroLeaf(l))
 		}
@@ -372,13 +388,14 @@ func (c *FnCtx) mapAxiom(has, val *Term, ks string, zero *Term) {
 func (c *FnCtx) mapUpdate(st *State, mv Val, key Val, v Val) {
 	m := mv.T.Underlying().(*types.Map)
 	ks := mapKeySort(m)
+	kt := c.mapKey(m, key)
 	fam := mapFam(m, "has")
 	has := c.get(st, fam, ArrS(SInt, ArrS(ks, SBool)))
-	c.set(st, fam, Store(has, mv.L[0], Store(Select(has, mv.L[0]), key.L[0], TTrue)))
+	c.set(st, fam, Store(has, mv.L[0], Store(Select(has, mv.L[0]), kt, TTrue)))
 	for i, l := range leavesOf(m.Elem()) {
 		fam := mapFam(m, fmt.Sprintf("v%d", i))
 		h := c.get(st, fam, ArrS(SInt, ArrS(ks, l.Sort)))
-		c.set(st, fam, Store(h, mv.L[0], Store(Select(h, mv.L[0]), key.L[0], v.L[i])))
+		c.set(st, fam, Store(h, mv.L[0], Store(Select(h, mv.L[0]), kt, v.L[i])))
 	}
 }
 
